@@ -51,3 +51,10 @@ reg("C10", "proof", ["contracts.spherical:Harmonics", "contracts.spherical:Conve
     ["gbasis.spherical.generate_transformation", "gbasis.spherical.real_solid_harmonic", "gbasis.spherical.harmonic_norm",
      "gbasis.spherical.expansion_coeff", "gbasis.spherical.shift_factor",
      "gbasis.contractions.GeneralizedContractionShell.angmom_components_cart/_sph/num_cart/num_sph"])
+
+reg("C05", "proof", ["contracts.deriv:GeneralKernel", "contracts.deriv:DirectKernel", "contracts.deriv:EvalBlocks",
+    "contracts.assembly:OneIndex"],
+    ["gbasis.evals._deriv._eval_deriv_contractions", "gbasis.evals._deriv._eval_first_second_order_deriv_contractions",
+     "gbasis.evals._deriv._first_derivative", "gbasis.evals._deriv._second_derivative",
+     "gbasis.evals.eval_deriv.EvalDeriv.construct_array_contraction", "gbasis.evals.eval.Eval.construct_array_contraction",
+     "gbasis.base_one.BaseOneIndex.construct_array_*"])
